@@ -8,6 +8,9 @@
 (*   cb_enter item g       the user function was called for `item` on          *)
 (*                         goroutine g (= the worker)                          *)
 (*   cb_exit  item g kind  it returned / panicked: what it did (`kind`)        *)
+(*   cancel   mode         the caller cancelled its context (0) / the consumer  *)
+(*                         closed the output (1)                               *)
+(*   returned              the Run of a worker group returned                  *)
 (*   result   nil is got panicked   the run is over: the returned error /      *)
 (*            Close() of the output is nil?; the sentinels errors.Is finds in  *)
 (*            it; the item ids the output delivered; did the run panic         *)
@@ -41,14 +44,15 @@ VARIABLES l,         \* next event
           kindOf,    \* item -> kind, for the items whose user function has returned (a function on a set of items)
           abortG,    \* workers (goroutines) whose user function failed with a failure that must abort
           abortAt,   \* Len(entered) when the first such failure returned (-1: none)
+          cancelled, \* the caller cancelled its context / the consumer closed the output during this run
           bad        \* "" or the first obligation that failed
-vars == <<l, cfg, entered, kindOf, abortG, abortAt, bad>>
+vars == <<l, cfg, entered, kindOf, abortG, abortAt, cancelled, bad>>
 
 Ev   == Trace[l]
 More == l <= Len(Trace) /\ bad = ""
 NoCfg == [c |-> "-", n |-> 0, k |-> 1, coe |-> FALSE, cop |-> FALSE, inc |-> FALSE, exc |-> FALSE, coll |-> "default", gated |-> 0]
 
-Init == l = 1 /\ cfg = NoCfg /\ entered = <<>> /\ kindOf = <<>> /\ abortG = {} /\ abortAt = -1 /\ bad = ""
+Init == l = 1 /\ cfg = NoCfg /\ entered = <<>> /\ kindOf = <<>> /\ abortG = {} /\ abortAt = -1 /\ cancelled = FALSE /\ bad = ""
 
 O == [coe |-> cfg.coe, cop |-> cfg.cop, inc |-> cfg.inc, exc |-> cfg.exc]
 Range(s) == {s[i] : i \in 1..Len(s)}
@@ -64,7 +68,7 @@ First(checks) == IF \E j \in 1..Len(checks) : ~checks[j][1]
                    ELSE ""
 
 Reset == /\ More /\ Ev.ev = "reset"
-         /\ cfg' = Ev /\ entered' = <<>> /\ kindOf' = <<>> /\ abortG' = {} /\ abortAt' = -1
+         /\ cfg' = Ev /\ entered' = <<>> /\ kindOf' = <<>> /\ abortG' = {} /\ abortAt' = -1 /\ cancelled' = FALSE
          /\ l' = l + 1 /\ UNCHANGED bad
 
 Enter == /\ More /\ Ev.ev = "cb_enter"
@@ -75,7 +79,18 @@ Enter == /\ More /\ Ev.ev = "cb_enter"
                   <<~(cfg.gated = 1 /\ abortAt >= 0) \/ Len(entered) + 1 - abortAt <= cfg.k, "abort/other-workers-consume-input">> >>)
             IN  IF why = "" THEN entered' = Append(entered, Ev.item) /\ l' = l + 1 /\ UNCHANGED bad
                 ELSE bad' = why /\ UNCHANGED <<l, entered>>
-         /\ UNCHANGED <<cfg, kindOf, abortG, abortAt>>
+         /\ UNCHANGED <<cfg, kindOf, abortG, abortAt, cancelled>>
+
+\* the caller cancels its context (mode 0) / the consumer closes the output (mode 1)
+Cancel == /\ More /\ Ev.ev = "cancel"
+          /\ cancelled' = TRUE /\ l' = l + 1 /\ UNCHANGED <<cfg, entered, kindOf, abortG, abortAt, bad>>
+
+\* the Run of a worker group (pp / pfe / worker) returned: it promises to wait for its workers, so every user
+\* function that was called has returned - whatever happened to the context
+Returned == /\ More /\ Ev.ev = "returned"
+            /\ IF Range(entered) = Exited THEN l' = l + 1 /\ UNCHANGED bad
+               ELSE bad' = "cancel/run-returned-while-callback-held" /\ UNCHANGED l
+            /\ UNCHANGED <<cfg, entered, kindOf, abortG, abortAt, cancelled>>
 
 Exit == /\ More /\ Ev.ev = "cb_exit"
         /\ LET why == First(<<
@@ -88,7 +103,7 @@ Exit == /\ More /\ Ev.ev = "cb_exit"
                       /\ abortAt' = IF mustAbort /\ abortAt = -1 THEN Len(entered) ELSE abortAt
                       /\ l' = l + 1 /\ UNCHANGED bad
                  ELSE bad' = why /\ UNCHANGED <<l, kindOf, abortG, abortAt>>
-        /\ UNCHANGED <<cfg, entered>>
+        /\ UNCHANGED <<cfg, entered, cancelled>>
 
 Result ==
     /\ More /\ Ev.ev = "result"
@@ -98,7 +113,8 @@ Result ==
            anys  == {i \in Exited : Rep(i) = "any"}
            okIts == {i \in Exited : kindOf[i] = "ok"}
            \* every failure that occurred is one the run must continue after (and then all n items must occur)
-           contAll == \A i \in Exited : Cont(i) = "must"
+           \* ... and nobody cancelled the run
+           contAll == ~cancelled /\ \A i \in Exited : Cont(i) = "must"
            \* never-reported sentinels that came as the value of a (reported) panic decide nothing
            carried == UNION {MayCarry(kindOf[i]) : i \in Exited}
            swallowed == {i \in musts : ~({Name(s, i) : s \in Need(kindOf[i])} \subseteq is)}
@@ -108,15 +124,16 @@ Result ==
                <<is \cap ((NeverFound(O) \ carried) \ {"X"}) = {}, "never-reported-error-found">>,
                <<~("X" \in is /\ "X" \in NeverFound(O) \ carried), "excluded-error-reported">>,
                <<musts # {} => ~Ev.nil, "nil-despite-failure">>,
-               <<(musts = {} /\ anys = {}) => Ev.nil, "non-nil-without-failure">>,
+               \* with IncludeContextExpirationErrors a cancellation may itself be reported
+               <<(musts = {} /\ anys = {} /\ ~(cancelled /\ cfg.inc)) => Ev.nil, "non-nil-without-failure">>,
                <<\A a, b \in 1..Len(got) : got[a] = got[b] => a = b, "output/invented-or-duplicate">>,
                <<Range(got) \subseteq okIts, "output/invented-or-duplicate">>,
                <<contAll => (Range(entered) = 1..cfg.n /\ Exited = 1..cfg.n), "continue/item-not-processed">>,
                <<(contAll /\ HasOut) => Range(got) = okIts, "continue/output-lost">> >>)
        IN  IF why = "" THEN l' = l + 1 /\ UNCHANGED bad ELSE bad' = why /\ UNCHANGED l
-    /\ UNCHANGED <<cfg, entered, kindOf, abortG, abortAt>>
+    /\ UNCHANGED <<cfg, entered, kindOf, abortG, abortAt, cancelled>>
 
-Next == Reset \/ Enter \/ Exit \/ Result
+Next == Reset \/ Enter \/ Exit \/ Cancel \/ Returned \/ Result
 Spec == Init /\ [][Next]_vars
 
 \* acceptance: the highest trace position explained (needs -workers 1); register 2 carries the reason
